@@ -118,4 +118,40 @@ theorem timeLeft_eq (w : World) (s : Nat) (D : Int) (hs : s < N) :
   unfold dueOf
   split <;> wheel_omega
 
+/-! ### list surgery (round 4) -/
+
+/-- `cop->next->delta += cop->delta` in remove_call_out, remove_call_out_by_handle, remove_all_call_out (the extractor
+    checks that the three copies agree) -/
+theorem tie_unlinkDelta (a b : Int) : Gen.C10.unlinkDelta a b = a + b := rfl
+
+/-- `(*copp)->delta -= delay` in the insert branch of new_call_out -/
+theorem tie_insertSplit (delta delay : Int) : Gen.C10.insertSplit delta delay = delta - delay := rfl
+
+/-- `delay -= (*copp)->delta` when new_call_out walks past an entry -/
+theorem tie_insertWalk (delay delta : Int) : Gen.C10.insertWalk delay delta = delay - delta := rfl
+
+/-- `--call_list[tm]->delta` in call_out() -/
+theorem tie_headDec (delta : Int) : Gen.C10.headDec delta = delta - 1 := rfl
+
+/-- the head test of call_out() is a test of the decremented value: `headDue d` iff `headDec d = 0` -/
+theorem tie_headDue_dec (delta : Int) : Gen.C10.headDue delta = decide (Gen.C10.headDec delta = 0) := rfl
+
+/-! ### owner tests (round 4) -/
+
+/-- call_out(): `cop->ob && (cop->ob->flags & O_DESTRUCTED)` -/
+theorem tie_dropCond (a b : Bool) : Gen.C10.dropCond a b = (a && b) := rfl
+
+/-- get_all_call_outs: `if (cop->ob && (cop->ob->flags & O_DESTRUCTED)) continue;` -/
+theorem tie_infoSkip (a b : Bool) : Gen.C10.infoSkip a b = (a && b) := rfl
+
+/-- get_all_call_outs: the counting loop and the row loop agree (the array has exactly one element per row) -/
+theorem tie_infoCount (a b : Bool) : Gen.C10.infoCount a b = !Gen.C10.infoSkip a b := by
+  cases a <;> cases b <;> rfl
+
+/-- the C-shaped `fireOne` is the one the theorems are about -/
+theorem fireOne_eq_spec (sc : Scripts) (w : World) (cop : Entry) : fireOne sc w cop = fireOneSpec sc w cop := by
+  unfold fireOne fireOneSpec
+  rw [tie_dropCond]
+  cases cop.c.fp <;> cases isDead w cop.c.owner <;> rfl
+
 end NV.C10
